@@ -105,6 +105,7 @@ class State:
         self.seq = 0
         self.escaped = set()   # alloca terms whose address was handed to unknown code
         self.locals = set()    # extra bases that behave like locals (sret result slot)
+        self.defined = []      # (base, lo, hi) byte ranges written on this path (monotone: kills do not remove)
 
     def clone(self):
         s = State.__new__(State)
@@ -125,6 +126,7 @@ class State:
         s.seq = self.seq
         s.escaped = set(self.escaped)
         s.locals = self.locals
+        s.defined = list(self.defined)
         return s
 
     def fresh(self):
@@ -342,6 +344,14 @@ class State:
         self.stype[k] = ty
         return v
 
+    def is_defined(self, ptr, size=1):
+        """has the location been written on this path (store, zero fill or copy)?"""
+        base, off = ptr_key(ptr)
+        for (b, lo, hi) in self.defined:
+            if b == base and lo <= off and off + size <= hi:
+                return True
+        return False
+
     def do_store(self, ptr, val, ty, size=None):
         base, off = ptr_key(ptr)
         if size is None:
@@ -349,6 +359,7 @@ class State:
         self._kill_range(base, off, off + size)
         self.store[(base, off)] = val
         self.stype[(base, off)] = ty
+        self.defined.append((base, off, off + size))
 
     def _kill_range(self, base, lo, hi):
         for k in [k for k in self.store if k[0] == base and lo <= k[1] < hi]:
@@ -383,6 +394,7 @@ class State:
             self.kill_base(base)
             return
         self._kill_range(base, off, off + n)
+        self.defined.append((base, off, off + n))
         if val == ZERO:
             self.zero.setdefault(base, []).append((off, off + n))
 
@@ -393,6 +405,7 @@ class State:
             self.kill_base(db)
             return
         self._kill_range(db, do, do + n)
+        self.defined.append((db, do, do + n))
         snap = {k: v for k, v in self.store.items() if k[0] == sb and so <= k[1] < so + n}
         szero = list(self.zero.get(sb, ()))
         scop = list(self.copies.get(sb, ()))
